@@ -841,3 +841,210 @@ class DeleteMonitor:
             self.rig.violate("deleted-unreplaced-path",
                              f"{event} {rt}: path {pn} was not replaced in "
                              "this run")
+
+
+# --------------------------------------------------------------------------
+def _frame_content(config):
+    """(x, v) of the frame a lattice config tuple references."""
+    from vf.plugins.lattice import read_frames
+    fn, idx = config
+    fr = read_frames(fn)
+    return fr[0 if idx is None else idx]
+
+
+def _file_digest(fn):
+    try:
+        with open(fn, "rb") as f:
+            return hashlib.sha1(f.read()).hexdigest()
+    except OSError:
+        return None
+
+
+def path_snapshot(path):
+    return {"n": path.length,
+            "frames": [(tuple(float(o) for o in p.order), tuple(p.config),
+                        bool(p.vel_rev)) for p in path.phasepoints],
+            "files": {a: _file_digest(a) for a in path.adress},
+            "number": path.path_number}
+
+
+def membership(path, ens, ens_num, subcycles=1, lattice=True):
+    """Violations (list of (mech, text)) of 'path belongs to ensemble'."""
+    out = []
+    left, mid, right = ens["interfaces"]
+    sc = ens["start_cond"]
+    sc = set(sc) if not isinstance(sc, str) else {sc}
+    orders = [float(p.order[0]) for p in path.phasepoints]
+    maxlen = ens["tis_set"]["maxlength"]
+    if len(orders) < 3:
+        out.append(("acc-too-short", f"accepted path has {len(orders)} frames"))
+        return out
+    if len(orders) > maxlen:
+        out.append(("acc-exceeds-maxlength",
+                    f"length {len(orders)} > limit {maxlen}"))
+
+    def side(v):
+        if v < left:
+            return "L"
+        if v > right:
+            return "R"
+        return None
+    s0, s1 = side(orders[0]), side(orders[-1])
+    if s0 is None or s0 not in sc:
+        out.append(("acc-bad-start", f"first frame {orders[0]} is on side "
+                    f"{s0}, ensemble allows {sorted(sc)} "
+                    f"(interfaces {left},{right})"))
+    if s1 is None:
+        out.append(("acc-ends-inside", f"last frame {orders[-1]} lies "
+                    f"between the interfaces {left},{right}"))
+    elif ens_num == -1 and sc == {"R"} and s1 != "R":
+        out.append(("acc-bad-end", f"[0-] path ends on side {s1}"))
+    for k, v in enumerate(orders[1:-1]):
+        if side(v) is not None:
+            out.append(("acc-interior-outside", f"interior frame {k + 1} "
+                        f"at {v} is outside ({left},{right})"))
+            break
+    if ens_num >= 0 and not max(orders) > mid:
+        out.append(("acc-not-crossing", f"max order {max(orders)} does not "
+                    f"cross the ensemble interface {mid}"))
+    if lattice:
+        for a, b in zip(orders, orders[1:]):
+            if abs(a - b) > subcycles + 1e-9:
+                out.append(("acc-not-time-ordered", f"consecutive frames "
+                            f"{a} -> {b} are not neighbours in time"))
+                break
+        last = {}
+        for k, p in enumerate(path.phasepoints):
+            fn, idx = p.config
+            try:
+                x, v = _frame_content(p.config)
+            except Exception as exc:
+                out.append(("acc-frame-unreadable", f"frame {k} -> {fn}:{idx}"
+                            f" {type(exc).__name__}"))
+                break
+            if float(x) != float(p.order[0]):
+                out.append(("acc-order-not-of-frame", f"frame {k} stores "
+                            f"order {p.order[0]} but {os.path.basename(fn)}:"
+                            f"{idx} holds x={x}"))
+                break
+            if fn in last and idx is not None and last[fn][0] is not None:
+                pidx, prev_rev = last[fn]
+                if prev_rev == bool(p.vel_rev):
+                    if (idx <= pidx) != bool(p.vel_rev) and idx != pidx:
+                        out.append(("acc-not-time-ordered", f"frame {k}: "
+                                    f"index {idx} after {pidx} in {fn} with "
+                                    f"vel_rev={p.vel_rev}"))
+                        break
+            last[fn] = (idx, bool(p.vel_rev))
+    return out
+
+
+class MoveMonitor:
+    """C09/C11 riders: what run_md returns, for every move of a history."""
+
+    def __init__(self, check_zero_swap=True, subcycles=1):
+        self.snap = None
+        self.check_zero_swap = check_zero_swap
+        self.subcycles = subcycles
+
+    def before_run_md(self, rig, md_items):
+        self.snap = {e: path_snapshot(md_items["picked"][e]["traj"])
+                     for e in md_items["picked"]}
+        self.old = {e: md_items["picked"][e]["traj"]
+                    for e in md_items["picked"]}
+        self.oldframes = {}
+        for e, p in self.old.items():
+            try:
+                self.oldframes[e] = [(_frame_content(q.config), bool(q.vel_rev))
+                                     for q in (p.phasepoints[:2] +
+                                               p.phasepoints[-2:])]
+            except Exception:
+                self.oldframes[e] = None
+
+    def after_run_md(self, rig, out):
+        rig.reach("move_result")
+        status = out["status"]
+        rig.ev("moves_" + "+".join(out["moves"]) + "_" + status)
+        for e in out["picked"]:
+            pk = out["picked"][e]
+            new = pk["traj"]
+            ens = pk["ens"]
+            if status != "ACC":
+                rig.reach("reject_untouched")
+                after = path_snapshot(new)
+                if new is not self.old[e]:
+                    rig.violate("rejected-move-replaced-path",
+                                f"status {status} but run_md put another "
+                                f"path object into ensemble {e}")
+                if after["frames"] != self.snap[e]["frames"]:
+                    k = next((i for i, (a, b) in enumerate(zip(
+                        after["frames"], self.snap[e]["frames"])) if a != b),
+                        None)
+                    rig.violate("rejected-move-changed-old-path",
+                                f"status {status}: frames of the old path of "
+                                f"ensemble {e} changed (first at {k}: "
+                                f"{self.snap[e]['frames'][k] if k is not None else None}"
+                                f" -> {after['frames'][k] if k is not None else None})",
+                                move=out["moves"])
+                elif after["files"] != self.snap[e]["files"]:
+                    rig.violate("rejected-move-changed-old-files",
+                                f"status {status}: files of the old path of "
+                                f"ensemble {e} changed or vanished",
+                                move=out["moves"])
+                continue
+            rig.reach("membership")
+            for mech, txt in membership(new, ens, e, self.subcycles):
+                rig.violate(mech, f"{'+'.join(out['moves'])} in ensemble {e} "
+                            f"accepted: {txt}",
+                            orders=[float(p.order[0])
+                                    for p in new.phasepoints][:60],
+                            interfaces=list(ens["interfaces"]),
+                            generated=str(new.generated))
+            w = new.weights
+            mine = None if w is None else (w[0] if e < 0 else w[e])
+            if not mine:
+                rig.violate("acc-zero-weight", f"accepted path has weight "
+                            f"{mine} in its own ensemble {e}",
+                            weights=str(w))
+            gen = new.generated
+            if len(out["picked"]) == 1 and gen and gen[0] == "sh":
+                rig.reach("shooting_point")
+                old = self.snap[e]
+                idx_old, idx_new = int(gen[2]), int(gen[3])
+                if not 1 <= idx_old <= old["n"] - 2:
+                    rig.violate("shooting-point-is-end-point",
+                                f"shooting index {idx_old} of a path of "
+                                f"length {old['n']}")
+                elif not (0 <= idx_new < new.length) or \
+                        float(new.phasepoints[idx_new].order[0]) != \
+                        old["frames"][idx_old][0][0]:
+                    rig.violate("acc-without-shooting-point",
+                                f"frame {idx_new} of the new path is not the "
+                                f"shooting point (old frame {idx_old})")
+        if len(out["picked"]) == 2 and status == "ACC" and \
+                self.check_zero_swap and self.oldframes.get(-1) and \
+                self.oldframes.get(0):
+            rig.reach("zero_swap_frames")
+            new0, new1 = out["picked"][-1]["traj"], out["picked"][0]["traj"]
+
+            def eff(fc, rev):
+                (x, v) = fc
+                return (x, -v if rev else v)
+            try:
+                end0 = [eff(_frame_content(p.config), p.vel_rev)
+                        for p in new0.phasepoints[-2:]]
+                start1 = [eff(_frame_content(p.config), p.vel_rev)
+                          for p in new1.phasepoints[:2]]
+            except Exception as exc:
+                rig.violate("zero-swap-frame-unreadable", str(exc))
+                return
+            want0 = [eff(*f) for f in self.oldframes[0][:2]]
+            want1 = [eff(*f) for f in self.oldframes[-1][-2:]]
+            if end0 != want0:
+                rig.violate("zero-swap-wrong-crossing-frames:[0-]",
+                            f"new [0-] path ends with {end0}, the old [0+] "
+                            f"path began with {want0}")
+            if start1 != want1:
+                rig.violate("zero-swap-wrong-crossing-frames:[0+]",
+                            f"new [0+] path starts with {start1}, the old "
+                            f"[0-] path ended with {want1}")
